@@ -267,6 +267,9 @@ func replayOverlayPkg(repo, pkgPattern string, harnessFiles []string, outDir, pr
 		for _, im := range f.Imports {
 			ip := strings.Trim(im.Path.Value, "\"")
 			nm := ip[strings.LastIndex(ip, "/")+1:]
+			if i := strings.LastIndex(nm, ".v"); i > 0 { // gopkg.in/yaml.v3 is package yaml
+				nm = nm[:i]
+			}
 			if im.Name != nil {
 				nm = im.Name.Name
 			}
@@ -283,6 +286,22 @@ func replayOverlayPkg(repo, pkgPattern string, harnessFiles []string, outDir, pr
 				return true
 			}
 			id, ok := se.X.(*ast.Ident)
+			if ok && (!imports[id.Name] || id.Obj != nil) {
+				// method cuts of library types, opt-in by `// verif:native-cut <pkg>_<Type>_<Method>`: a call `x.Method(args)`
+				// on a local identifier becomes verifStub_<key>(x, args). The rewriting goes by the method name alone
+				// (no type information here), so a same-named method of another type fails to compile rather than
+				// silently taking the cut.
+				for k := range nativeForeign {
+					parts := strings.Split(k, "_")
+					if len(parts) == 3 && cuts[k] && imports[parts[0]] && parts[2] == se.Sel.Name {
+						ce.Args = append([]ast.Expr{id}, ce.Args...)
+						ce.Fun = ast.NewIdent("verifStub_" + k)
+						applied[k] = true
+						changed = true
+						return true
+					}
+				}
+			}
 			if !ok || !imports[id.Name] || id.Obj != nil { // id.Obj != nil: a local object shadows the import name
 				return true
 			}
